@@ -214,10 +214,10 @@ def oracle_c12(lines: list[str], answers: list[str]) -> list[tuple[str, str]]:
         if f[0] in ("cancel", "force") and prev is not None:
             i = int(f[1])
             t = prev["tr"].get(i)
-            offered = t is not None and t["item"] not in ("none", "!!") and \
+            offered = t is not None and t["item"] not in ("none", "!!", "??") and \
                 t["item"][0 if f[0] == "cancel" else 1] in "CF"
             known = t is not None
-            produced = t is not None and t["item"] not in ("none", "!!")
+            produced = t is not None and t["item"] not in ("none", "!!", "??")
             same = all(o[k] == prev[k] for k in ("ex", "qu", "inst", "tr", "sim", "run", "sys")) and not o["ev"]
             if known and produced and not offered:
                 if o["reply"] == "ok":
